@@ -21,7 +21,7 @@ RULE = ("(box) exhaustive enumeration of all triples (max1, max2, P) in a box th
 ASSUMPTIONS = ["arguments are positive integers (what setups.py passes)",
                "termination is decided as a bounded claim: a line-event budget of 50*(P+max1)+1000 per call"]
 
-BOX = {"quick": (48, 48, 96), "thorough": (128, 128, 512)}
+BOX = {"quick": (48, 48, 96), "thorough": (192, 192, 768)}
 
 
 class _Budget(Exception):
@@ -280,7 +280,7 @@ def init_worker(tier):
 
 def jobs(tier):
     out = [{"sub": "box", "shard": i, "nshards": 16} for i in range(16)]
-    nf, nn = (300, 150) if tier == "quick" else (6000, 2500)
+    nf, nn = (300, 150) if tier == "quick" else (20000, 8000)
     out += [{"sub": "far", "n": nf, "shard": i} for i in range(8)]
     out += [{"sub": "npts", "n": nn, "shard": i} for i in range(8)]
     return out
